@@ -113,6 +113,9 @@ impl Cache {
     #[instrument]
     pub fn remove(&self, pid: &str) -> Result<bool> {
         debug!("remove pid={pid}");
+        // not while somebody loads processes from the store: a copy that was read before the
+        // rows are gone must not come back into the cache afterwards
+        let _loading = self.loading.lock().unwrap();
         self.procs.remove(pid);
         self.live.lock().unwrap().remove(pid);
         self.store.remove_proc(pid)?;
@@ -122,6 +125,7 @@ impl Cache {
     #[instrument(skip(on_load))]
     pub fn restore<F: Fn(&Arc<Process>)>(&self, rt: &Arc<Runtime>, on_load: F) -> Result<()> {
         debug!("restore");
+        let _loading = self.loading.lock().unwrap();
         let cap = self.cap();
         let count = self.count();
         let mut check_point = cap / 2;
